@@ -295,7 +295,23 @@ type headerInfo struct {
 	NRes    int
 }
 
+var pkgFuncHeaderRe = regexp.MustCompile(`^func\s+([a-z][A-Za-z0-9_]*)\.([A-Za-z_][A-Za-z0-9_]*)\s*\(`)
+
 func parseHeader(h string) (*headerInfo, error) {
+	// "func pkg.Name(...)": a (trusted) contract on a plain function of an imported package
+	pkgQual := ""
+	if m := pkgFuncHeaderRe.FindStringSubmatch(h); m != nil {
+		pkgQual = m[1]
+		h = "func " + m[2] + "(" + h[len(m[0]):]
+	}
+	hi, err := parseHeader1(h)
+	if err == nil && pkgQual != "" {
+		hi.RecvPkg = pkgQual
+	}
+	return hi, err
+}
+
+func parseHeader1(h string) (*headerInfo, error) {
 	src := "package p\n" + h + " {}\n"
 	fset := token.NewFileSet()
 	f, err := parser.ParseFile(fset, "h.go", src, 0)
